@@ -312,7 +312,7 @@ theorem file_token_exact (tgt : Ty) (ht : tgt ∈ textTargets) (strto : List Nat
         obtain ⟨ho, _⟩ := h
         have hT := hok (some bits) k hcn
         obtain ⟨_, hT⟩ := hT
-        rcases hT with ⟨hnone, _⟩ | ⟨v, hnum, hrange, hst⟩
+        rcases hT with ⟨hnone, _, _⟩ | ⟨v, hnum, hrange, hst⟩
         · cases hnone
         · rcases hst with ⟨_, b, hb, hden⟩ | ⟨hd, _⟩
           · simp only [Option.some.injEq] at hb
